@@ -5,15 +5,22 @@ import glob, json, os, subprocess, sys
 from concurrent.futures import ThreadPoolExecutor
 ROOT = os.path.dirname(os.path.dirname(os.path.abspath(__file__)))
 REL = {"C01": ["C07", "C15"], "C02": ["C11"], "C05": ["C04"], "C06": ["C12"], "C08": ["C06"], "C11": ["C02"], "C12": ["C06"], "C15": ["C16"], "C16": ["C15"], "C18": ["C12"], "C19": [], "C09": ["C06"], "C07": ["C01"], "C14": ["C09"], "C17": [], "C04": ["C05"]}
-dirs = sorted(d for d in glob.glob("/tmp/seed_out/C??_?") if os.path.exists(os.path.join(d, "patch.diff")) and not os.path.exists(os.path.join(d, "result.json")))
+REDO = "--redo-checks" in sys.argv  # re-run demo + checks with the current machinery, keep the suite verdict already obtained
+dirs = sorted(d for d in glob.glob("/tmp/seed_out/C??_?") if os.path.exists(os.path.join(d, "patch.diff")) and (REDO or not os.path.exists(os.path.join(d, "result.json"))))
 def ev(d):
     prop = os.path.basename(d)[:3]
     props = ",".join([prop] + REL.get(prop, []))
-    r = subprocess.run([os.path.join(ROOT, "selftest", "try_seed.py"), d, "--props=" + props] + ([] if "--no-suite" in sys.argv else ["--suite"]), capture_output=True, text=True)
+    prev = {}
+    if REDO and os.path.exists(os.path.join(d, "result.json")):
+        prev = json.load(open(os.path.join(d, "result.json")))
+    r = subprocess.run([os.path.join(ROOT, "selftest", "try_seed.py"), d, "--props=" + props] + ([] if ("--no-suite" in sys.argv or REDO) else ["--suite"]), capture_output=True, text=True)
     try:
         out = json.loads(r.stdout)
     except Exception:
         out = {"error": (r.stdout + r.stderr)[-600:]}
+    for k in ("suite_passes", "suite_tail", "suite_s"):
+        if k in prev and k not in out:
+            out[k] = prev[k]
     json.dump(out, open(os.path.join(d, "result.json"), "w"), indent=1)
     return d, out
 with ThreadPoolExecutor(2) as ex:
